@@ -436,8 +436,13 @@ def part_f(ctx, rng, n):
                 meth = rng.choice(["keys"] if env.setlike else ["keys", "values", "items"])
                 args = (env.k(lo) if rng.random() < 0.85 else None, env.k(hi) if rng.random() < 0.85 else None, rng.random() < 0.3, rng.random() < 0.3)
                 v = getattr(t, meth)(*args)
+                nv = len(v)
+                back = sorted(rng.sample(range(nv), min(nv, 4)), reverse=True) if nv else []
                 for opn, op in (("bool", lambda: bool(v)), ("len", lambda: len(v)), ("first", lambda: v[0]), ("last", lambda: v[-1]),
-                                ("next", lambda: next(iter(v))), ("list", lambda: [x for x in v])):
+                                ("next", lambda: next(iter(v))), ("list", lambda: [x for x in v]),
+                                ("index-backwards", lambda: [v[i] for i in back]),            # PreviousBucket walks
+                                ("index-back-and-forth", lambda: [v[i] for i in (nv - 1, 0, nv // 2, 0)] if nv else None),
+                                ("slice-backwards", lambda: (v[nv // 2:], v[:nv // 2], v[-1], v[0]) if nv else None)):
                     try:
                         op()
                     except (IndexError, StopIteration):
@@ -453,6 +458,52 @@ def part_f(ctx, rng, n):
                         break
                 del v
             ctx.count(("f-views", fn, kind, ml, mi, tuple(keys)))
+    # (1b) an omitted exclusive bound steps over a one-key end bucket (PreviousBucket / next walks of BTree_rangeSearch)
+    for it in range(max(4, n // 4)):
+        kind = rng.choice(["BTree", "TreeSet"])
+        fn = rng.choice(ALL_FAMS)
+        env = TreeEnv(fn, kind, "C", "int" if fn[0] == "O" else None)
+        ml, mi = rng.choice([(2, 2), (3, 3), (2, 4), (4, 4)])
+        with env.sized(ml, mi):
+            jar = Jar(Storage())
+            t = env.new()
+            nk = rng.choice([2 * ml + 1, 3 * ml + 1, 5 * ml + 1, 4 * ml + 1]) + 1     # ascending inserts: the last bucket ends with few keys
+            keys = list(range(1, nk))
+            for k in keys:
+                env.call(t, ("add", k) if env.setlike else ("set", k, k % 4))
+            def leaf_keys(sh):
+                if sh[0] == "leaf":
+                    return [sh[1]]
+                return [x for _, c in sh[1] for x in leaf_keys(c)]
+            lk = leaf_keys(env.shape(t))
+            if len(lk) < 3:
+                continue
+            for kk in lk[0][1:] + lk[-1][:-1]:          # thin the two end buckets down to one key each
+                env.call(t, ("remove", kk) if env.setlike else ("del", kk))
+            if f16_condition(None, t):
+                continue
+            jar.add(t)
+            jar.commit()
+            for meth in (["keys"] if env.setlike else ["keys", "values", "items"]):
+                for args in ((None, None, False, True), (None, None, True, False), (None, None, True, True)):
+                    jar.minimize()
+                    v = getattr(t, meth)(*args)
+                    for opn, op in (("create", lambda: None), ("len", lambda: len(v)), ("list", lambda: [x for x in v]), ("last-first", lambda: (v[-1], v[0]))):
+                        try:
+                            op()
+                        except IndexError:
+                            pass
+                        nviews += 1
+                        stk = sticky_nodes(jar)
+                        if stk:
+                            ctx.oracle_failure("C:%s:sticky-after:%s-of-range-sequence" % (kind, opn),
+                                               "%s%s/C sizes=(%d,%d), end buckets thinned to one key, stored: %s of %s%r leaves %d node(s) pinned (_p_state == 2)" % (fn, kind, ml, mi, opn, meth, args, len(stk)),
+                                               {"family": fn, "kind": kind, "sizes": [ml, mi], "nkeys": nk, "method": meth, "range": list(args), "op": opn})
+                            for o in stk:
+                                o._p_deactivate()
+                            break
+                    del v
+            ctx.count(("f-ends", fn, kind, ml, mi, nk))
     # (2) raising comparisons
     for it in range(max(3, n // 6)):
         cls = rng.choice([OOBTree, OOTreeSet])
